@@ -580,6 +580,7 @@ fn harnesses(tier: Tier) -> Vec<Harness> {
         h("get||get unverified after reopen", 0, vec![Put(0, 0, 3), Reopen], vec![vec![Get(0, 0, 3)], vec![Get(0, 1, 2)]]),
         h("get||get of an item damaged while closed", 0, vec![Put(0, 0, 3), DamageAndReopen(0, 0, 3)], vec![vec![Get(0, 0, 3)], vec![Get(0, 2, 3)]]),
         h("get||put over an item damaged while closed", 0, vec![Put(0, 0, 3), DamageAndReopen(0, 0, 3)], vec![vec![Get(0, 2, 3)], vec![Put(0, 2, 3)]]),
+        h("get||identical put over an item damaged while closed", 0, vec![Put(0, 0, 3), DamageAndReopen(0, 0, 3)], vec![vec![Get(0, 0, 3)], vec![Put(0, 0, 3)]]),
         h("put,put||put identical then nested", 0, vec![], vec![vec![Put(0, 0, 2), Put(0, 0, 3)], vec![Put(0, 0, 2)]]),
         h("put evicting two keys||put into one of their directories", 3, vec![Put(0, 0, 1), Put(1, 0, 1)], vec![vec![Put(1, 1, 3)], vec![Put(0, 1, 2)]]),
     ];
